@@ -543,6 +543,38 @@ def real_git_compare(world, states):
 
 # ------------------------------------------------------------------ shards
 
+class Buf:
+    """Same interface as Acc.violation; keeps the smallest cases of every
+    signature (the runner keeps at most 50 violations per shard, in order of
+    arrival, and large structures are swept first)."""
+    KEEP = 6
+
+    def __init__(self):
+        self.best = {}
+        self.seen = 0
+
+    def violation(self, message, case, signature):
+        self.seen += 1
+        k = json.dumps(signature, sort_keys=True)
+        body = json.dumps(case, sort_keys=True)
+        lst = self.best.setdefault(k, [])
+        item = (len(body), body, message, case, signature)
+        if len(lst) < self.KEEP:
+            lst.append(item)
+            lst.sort(key=lambda x: x[:2])
+        elif item[:2] < lst[-1][:2]:
+            lst[-1] = item
+            lst.sort(key=lambda x: x[:2])
+
+    def flush(self, acc):
+        n = 0
+        for k in sorted(self.best):
+            for _, _, message, case, signature in self.best[k]:
+                acc.violation(message, case, signature)
+                n += 1
+        acc.cls('violations_seen', self.seen - n)
+
+
 def spec_id(spec):
     return json.dumps([spec['devs'], spec['stabs'], spec['hotfixes'],
                        spec.get('hfrev', 1), [d for _, d in spec['prs']]],
@@ -557,12 +589,6 @@ def shard_sweep(ctx, shard, acc):
     disagreements = []           # (index, mask, clause)
     real_jobs = {}               # index -> set of masks
     sub = {}
-    pending = []
-
-    class Buf:                   # same interface as Acc.violation
-        @staticmethod
-        def violation(message, case, signature):
-            pending.append((message, case, signature))
     buf = Buf()
     for idx in mine:
         tag, spec, mode, ncommits = allst[idx]
@@ -666,16 +692,7 @@ def shard_sweep(ctx, shard, acc):
     for k, v in sub.items():
         acc.extra['structures:' + k] = v
     acc.extra['disagreements_git_order'] = len(disagreements)
-    # smallest cases first: the runner keeps at most 50 violations per shard
-    pending.sort(key=lambda a: (len(json.dumps(a[1])), json.dumps(a[1])))
-    per_sig = {}
-    for a in pending:
-        k = json.dumps(a[2], sort_keys=True)
-        per_sig[k] = per_sig.get(k, 0) + 1
-        if per_sig[k] <= 12:
-            acc.violation(*a)
-        else:
-            acc.cls('violations_seen')
+    buf.flush(acc)
     with open(os.path.join(shard['scratch'], 'p1_%03d.json' % shard['n']),
               'w') as f:
         json.dump({'disagreements': disagreements,
@@ -770,6 +787,19 @@ def run(ctx):
             skipped += len(ms) - 4
             ms = sorted(ms[:4])
         jobs.append((i, ms, sorted(dis_by.get(i, ()))))
+    # bound the real-git work (a broken tree can disagree everywhere):
+    # smallest structures first
+    cap = 400 if tier == 'quick' else 1200
+    jobs.sort(key=lambda j: (len(allst[j[0]][1]['prs']), allst[j[0]][3],
+                             j[0]))
+    kept, total = [], 0
+    for j in jobs:
+        if total + len(j[1]) > cap:
+            skipped += len(j[1])
+            continue
+        kept.append(j)
+        total += len(j[1])
+    jobs = kept
     jobs.sort(key=lambda j: (-len(j[1]), j[0]))
     nsh = max(1, min(NSHARDS, len(jobs)))
     rshards = [{'n': n, 'jobs': jobs[n::nsh]} for n in range(nsh)]
